@@ -177,6 +177,10 @@ func ModelSession(m *Model, ops []ProbeOp) []Expect {
 		case "state":
 			out[i] = Expect{Text: canon.Render(m.State())}
 			continue
+		case "circ":
+			// configurations handed to the probe are acyclic by construction: no circular dependency is reported
+			out[i] = Expect{Text: "nil"}
+			continue
 		case "counters":
 			ks := make([]string, 0, len(m.Counters))
 			for k, n := range m.Counters {
